@@ -29,8 +29,17 @@ def run(d):
         if r.returncode != 0: return sid, None, "does not compile"
         env = dict(ENV, GOFLAGS="-mod=vendor")
         verdicts, first = {}, {}
-        for p in PROPS:
-            r = subprocess.run([os.path.join(here, "bin", "kxcheck"), "-prop", p, "-tier", "quick", "-repo", repo, "-verif", vdir], env=env, capture_output=True, text=True)
+        props = PROPS
+        if os.environ.get("REV_MODE") == "recorded":
+            # faster: only the seed's own property and the checks recorded as detecting it; the other verdicts are kept
+            m0 = json.load(open(os.path.join(d, "meta.json")))
+            old = m0.get("checks", {})
+            props = [q for q in PROPS if q == m0.get("property") or old.get(q) == "DETECTED"]
+            if os.environ.get("REV_OWN"):
+                props = [q for q in PROPS if q == m0.get("property")]
+            verdicts = dict(old)
+        for p in props:
+            r = subprocess.run([os.environ.get("KX_BIN", os.path.join(here, "bin", "kxcheck")), "-prop", p, "-tier", "quick", "-repo", repo, "-verif", vdir], env=env, capture_output=True, text=True)
             verdicts[p] = "DETECTED" if r.returncode == 1 else "missed" if r.returncode == 0 else "checker-error"
             if r.returncode == 1:
                 for l in r.stdout.splitlines():
